@@ -225,6 +225,9 @@ def _outcome_cp(o):
     return (res, tuple(ws), called)
 
 
+CP_NORM = {}
+
+
 def cp_worker(meth):
     ctx = get_ctx()
     ci = ctx.p.find_class("classproperty")
@@ -240,6 +243,13 @@ def cp_worker(meth):
         cfg.sym_method_filter = lambda c_, name: name not in (CP_FIELDS - {"fget", "fset", "fdel", "cache_per_subclass"})
     it, outs = run_function(ctx.p, ctx.H, m[0], args, {}, configure=conf)
     rows = dtable.build_rows(outs, _classify_cp, _outcome_cp)
+    # receiver normalisation facts: (obj known to be a class?, cache keys used, raw receiver handed to a callback?)
+    norm = []
+    for a, out, o in rows:
+        keys = tuple(e[4] for e in o.state.trace if e[0] == "W" and "_cache" in e[2])
+        raw_cb = any(e[0] == "U" and e[2] == "__get__" and any(x[1] == "obj" for x in e[3]) for e in o.state.trace)
+        norm.append((a.get("obj_is_class"), a.get("cache_per_subclass"), keys, raw_cb))
+    CP_NORM[meth] = norm
     return [(a, out) for a, out, _ in rows], sorted(it.functions_entered)
 
 
@@ -321,21 +331,27 @@ def check(ctx, rep: Report):
         rep.sample({"entry": f"classproperty.{meth}", "rows": [[a, repr(o)] for a, o in rows[:3]]})
         for msg in dtable.summarize(mism):
             rep.violate(Violation("C12.CP", f"C12.CP|classproperty.{meth}|{msg[:90]}", f"classproperty.{meth} departs from the protocol: {msg}", "", f"classproperty.{meth}"))
-    # key normalisation: instance receivers -> class; per-subclass key
-    ci = ctx.p.find_class("classproperty")
-    c, m = ctx.p.lookup_method(ci, "_cache_key")
-    src = ast.unparse(m[0].node)
-    ok = "cache_per_subclass" in src and "objtype" in src and "None" in src
-    rep.oblige("C12.CP", "classproperty._cache_key", ok)
-    if not ok:
-        rep.violate(Violation("C12.CP", "C12.CP|_cache_key", "classproperty._cache_key no longer keys the slot by class iff cache_per_subclass", "", "classproperty._cache_key"))
+    # key normalisation: instance receivers -> class; per-subclass key (decided on the interpreted rows)
+    all_keys = set()
     for meth in ("__set__", "__delete__"):
-        c, m = ctx.p.lookup_method(ci, meth)
-        src = ast.unparse(m[0].node)
-        ok = "isclass(obj)" in src.replace("inspect.", "") and "type(obj)" in src
-        rep.oblige("C12.CP", f"classproperty.{meth}[normalise receiver]", ok)
-        if not ok:
-            rep.violate(Violation("C12.CP", f"C12.CP|normalise|{meth}", f"classproperty.{meth} no longer normalises an instance receiver to its class", "", f"classproperty.{meth}"))
+        bad = []
+        decided = False
+        for is_cls, cps, keys, raw_cb in CP_NORM.get(meth, []):
+            decided = decided or is_cls is not None
+            all_keys |= set(keys)
+            if is_cls is not True and "obj" in keys:
+                bad.append("the override/cache slot is keyed by the instance itself rather than by its class")
+            if is_cls is not True and raw_cb:
+                bad.append("the instance (not its class) is handed to the class-level setter/deleter")
+        if not decided:
+            bad.append("the receiver is never tested for being a class")
+        rep.oblige("C12.CP", f"classproperty.{meth}[normalise receiver]", not bad, "; ".join(sorted(set(bad))))
+        for b in sorted(set(bad)):
+            rep.violate(Violation("C12.CP", f"C12.CP|normalise|{meth}|{b[:40]}", f"classproperty.{meth}: {b}", "", f"classproperty.{meth}"))
+    ok = "None" in all_keys and any(k != "None" for k in all_keys)
+    rep.oblige("C12.CP", "classproperty._cache_key", ok, f"keys observed: {sorted(all_keys)}")
+    if not ok:
+        rep.violate(Violation("C12.CP", "C12.CP|_cache_key", f"classproperty no longer keys the slot by class iff cache_per_subclass (keys observed: {sorted(all_keys)})", "", "classproperty._cache_key"))
 
     # ---- K
     rep.rules["C12.K"] = "getter()/setter()/deleter() forward fget,fset,fdel,overridable,cache and the extras"
